@@ -149,6 +149,20 @@ def handleResources (j : Json) : OpOut :=
 def incErrStr : IncErr → String
   | .none => "ok" | .rejected => "fatal:rebuild-failed" | .failed => "fatal:rebuild-failed" | .fatal => "fatal:fleet-strikes"
 
+/-- The ids the fleet request returned, read off the recorded responses (ordered calls only). -/
+def acquiredOf (oJ : Journal) (resps : List Resp) : Option (List String) :=
+  let rec go (es : List Entry) (rs : List Resp) : Option (List String) :=
+    match es, rs with
+    | e :: es', r :: rs' =>
+      match e.call, r with
+      | .createFleet _, .fleet idss errs => if idss.isEmpty && !errs.isEmpty then none else some idss.flatten
+      | _, _ => go es' rs'
+    | _, _ => none
+  go oJ resps
+
+def incErrOfOutcome (s : String) (rejected : Bool) : IncErr :=
+  if s == "ok" then .none else if s == "fatal:fleet-strikes" then .fatal else if rejected then .rejected else .failed
+
 def handleAwsOp (j : Json) : OpOut :=
   match j.getObjValAs? PGroup "g", j.getObjValAs? AwsCfg "cfg", j.getObjValAs? (List Resp) "resps" with
   | .ok g, .ok cfg, .ok resps =>
@@ -162,7 +176,16 @@ def handleAwsOp (j : Json) : OpOut :=
       let r := increaseSize o 0 cfg g delta
       -- the harness maps any returned error to "fatal:rebuild-failed" (it is just "an error" here)
       let mOut := incErrStr r.val.err
+      -- monitors on the observed journal
+      let oErr := incErrOfOutcome oOut (oJ.isEmpty)
+      let m17 := if Spec.C17.increaseHolds cfg g delta oJ oErr then [] else ["C17:request"]
+      let m1718 := match acquiredOf oJ resps with
+        | some acq =>
+          (if Spec.C17.attachHolds g.id acq oJ then [] else ["C17:attach-partition"]) ++
+          (if Spec.C18.holds acq oJ oErr then [] else ["C18:leak"])
+        | none => []
       { diffs := (if r.j == oJ then [] else ["journal"]) ++ (if mOut == oOut then [] else ["outcome"]),
+        mon := m17 ++ m1718,
         tag := "awsop:increase:" ++ (match r.val.err with | .none => "ok" | .rejected => "rejected" | .failed => "failed" | .fatal => "fatal"),
         model := Json.mkObj [("j", toJson r.j), ("outcome", toJson mOut)] }
     else
@@ -171,8 +194,13 @@ def handleAwsOp (j : Json) : OpOut :=
         let r := awsDeleteNodes o 0 g nodes
         let mOut := match r.val.err with | .none => "none" | .notInGroup => "notInGroup" | _ => "error"
         let oT : Int := getD obs "targetAfter" (-1)
+        let oErr : DelErr := if oOut == "none" then .none else if oOut == "notInGroup" then .notInGroup
+          else if oJ.isEmpty then .refused else .failed
+        -- a refused request and a not-in-group on the first node both have an empty journal: accept either reading
+        let m19 := if Spec.C19.deleteHolds g nodes oJ oErr || (oOut == "error" && oJ.isEmpty && Spec.C19.deleteHolds g nodes oJ .refused) then [] else ["C19:delete"]
         { diffs := (if r.j == oJ then [] else ["journal"]) ++ (if mOut == oOut then [] else ["outcome"]) ++
                    (if r.val.g.asg.desired == oT then [] else ["cached-desired"]),
+          mon := m19,
           tag := "awsop:delete:" ++ (match r.val.err with | .none => "none" | .refused => "refused" | .notInGroup => "notInGroup" | .failed => "failed"),
           model := Json.mkObj [("j", toJson r.j), ("outcome", toJson mOut), ("desired", toJson r.val.g.asg.desired)] }
       | .error e => { diffs := ["bad-case:" ++ e] }
